@@ -72,9 +72,7 @@ def check_nlo(rep, proj):
             rep.bad("C04.nlo", site, construct, "published NLO coefficient function is missing", key="missing")
             continue
         try:
-            reg = P.eval_part(ev, r.rsl, "reg", sym.z)
-            sing = P.eval_part(ev, r.rsl, "sing", sym.z)
-            loc = P.eval_part(ev, r.rsl, "loc", sym.z)
+            regs = {name: P.eval_part_regimes(ev, r.rsl, name, sym.z) for name in ("reg", "sing", "loc")}
         except (A.Undecided, S.Raised) as e:
             rep.undecided("C04.nlo", site, construct, f"parts not foldable: {e}")
             continue
@@ -85,12 +83,56 @@ def check_nlo(rep, proj):
         else:
             ereg, esing, eloc = N.gluon(kind), None, None
         problems = []
-        for name, got, exp in (("regular", reg, ereg), ("singular", sing, esing), ("local", loc, eloc)):
-            if not same(got, exp):
-                if got is None or exp is None:
-                    problems.append(f"{name} part {'missing' if got is None else 'present but not in the literature'}")
-                else:
-                    problems.append(f"{name} part differs: " + A.fmt_diffs(A.difference(A.to_rat(got), A.to_rat(exp), tol=Fraction(1, 10**9)), 3))
+        undecided_regions = []
+        for name, key_, exp in (("regular", "reg", ereg), ("singular", "sing", esing), ("local", "loc", eloc)):
+            regimes = regs[key_]
+            if len(regimes) == 1 and not regimes[0][0]:
+                got = regimes[0][1]
+                if not same(got, exp):
+                    if got is None or exp is None:
+                        problems.append(f"{name} part {'missing' if got is None else 'present but not in the literature'}")
+                    else:
+                        problems.append(f"{name} part differs: " + A.fmt_diffs(A.difference(A.to_rat(got), A.to_rat(exp), tol=Fraction(1, 10**9)), 3))
+                continue
+            # a piecewise kernel (e.g. a series near an end point): each piece against the closed form on its own region, numerically
+            bps = P.regime_breakpoints(regimes, "x")
+            # exact rational sample points, evaluated in 60-digit arithmetic: the common-denominator normal form of the
+            # published kernel cancels catastrophically in floats within ~1e-6 of an end point, which is where such pieces live
+            F_ = Fraction
+            bpf = [F_(b_).limit_denominator(10**15) for b_ in bps]
+            cands = sorted(set([F_(k_, 40) for k_ in range(1, 40)] + [F_(1, 10**k_) for k_ in range(1, 13)] + [1 - F_(1, 10**k_) for k_ in range(1, 13)]
+                               + [b_ * F_(f_) for b_ in bpf for f_ in ("1/2", "9/10", "999/1000", "1001/1000", "11/10", "2") if 0 < b_ * F_(f_) < 1]
+                               + [1 - (1 - b_) * F_(f_) for b_ in bpf for f_ in ("1/1000", "1/100", "1/10", "1/2", "9/10", "999/1000", "1001/1000", "11/10", "2")
+                                  if 0 < 1 - (1 - b_) * F_(f_) < 1]))
+            for conds, got in regimes:
+                pts = [z_ for z_ in cands if all(P.condition_holds(c_, z_, "x") for c_ in conds)]
+                region = " and ".join(f"{A.canon(d_)[:30]} {'<' if o_ in ('Lt', 'LtE') else '>'} 0 is {t_}" for d_, o_, t_ in conds)
+                if not pts:
+                    undecided_regions.append(region)
+                    continue
+                if (got is None) != (exp is None):
+                    problems.append(f"{name} part on the region [{region}] {'missing' if got is None else 'present but not in the literature'}")
+                    continue
+                if got is None:
+                    continue
+                worst = None
+                for z_ in pts:
+                    for nf_ in (3, 5):
+                        env_ = {"x": z_, "nf": nf_}
+                        try:
+                            gv, xv = float(A.evalf_dec(A.to_rat(got), env_)), float(A.evalf_dec(A.to_rat(exp), env_))
+                        except (A.Undecided, ValueError, ZeroDivisionError, OverflowError, ArithmeticError):
+                            continue
+                        dev = abs(gv - xv) / max(1.0, abs(xv))
+                        if worst is None or dev > worst[0]:
+                            worst = (dev, z_, gv, xv)
+                if worst is None:
+                    undecided_regions.append(region)
+                elif worst[0] > 1e-6:
+                    problems.append(f"{name} part on the region [{region}] differs from the published form: {worst[2]:.8g} vs {worst[3]:.8g} at z = {float(worst[1])!r}")
+        if undecided_regions and not problems:
+            rep.undecided("C04.nlo", site, construct, f"piecewise kernel: no sample point found in the region(s) {undecided_regions[:2]}")
+            continue
         rep.check(not problems, "C04.nlo", site, construct, f"== published NLO {kind} {role} coefficient for all z, nf", "; ".join(problems)[:500], key=f"{kind}|{role}")
     rep.floor("NLO class instances", n, 18)
 
@@ -123,6 +165,53 @@ def first_moment(reg, loc, nf):
     return m
 
 
+def tanh_sinh_ab(f, a, b, h=1.0 / 32, n=170):
+    """int_a^b f with f(x, log x, log(1-x)); end-point logarithms are formed without cancellation."""
+    s = 0.0
+    w_ab = b - a
+    for i in range(-n, n + 1):
+        u = i * h
+        w = math.pi / 2 * math.sinh(u)
+        if abs(w) > 340:
+            continue
+        e2 = math.exp(-2 * w)
+        t = 1 / (1 + e2)  # in (0, 1)
+        omt = e2 / (1 + e2)  # 1 - t, accurate
+        if t >= 1.0 or t <= 0.0 or omt <= 0.0:
+            continue
+        xx = a + w_ab * t
+        one_m_x = (1 - b) + w_ab * omt
+        if xx <= 0.0 or one_m_x <= 0.0:
+            continue
+        lx = math.log(w_ab * t) if a == 0.0 else math.log(xx)
+        lt = math.log(w_ab * omt) if b == 1.0 else math.log(one_m_x)
+        wgt = math.pi / 2 * math.cosh(u) * h * (2 * e2 / (1 + e2) ** 2) * w_ab
+        s += wgt * f(xx, lx, lt)
+    return s
+
+
+def first_moment_piecewise(reg_regimes, loc_regimes, nf):
+    """First moment of a piecewise regular part: each piece integrated over the interval on which its conditions hold."""
+    bps = [0.0] + P.regime_breakpoints(reg_regimes, "x") + [1.0]
+    m = 0.0
+    for a, b in zip(bps[:-1], bps[1:]):
+        mid = 0.5 * (a + b)
+        piece = [val for conds, val in reg_regimes if all(P.condition_holds(c_, mid, "x") for c_ in conds)]
+        if len(piece) != 1:
+            raise A.Undecided(f"{len(piece)} pieces of the regular part claim the interval ({a:g}, {b:g})")
+        if piece[0] is None:
+            continue
+        r = A.to_rat(piece[0])
+        m += tanh_sinh_ab(lambda xx, lx, lt: A.evalf(r, {"x": xx, "log(x)": lx, "log(1 - x)": lt, "nf": nf}), a, b)
+    # loc(0): the piece whose conditions hold at the lower end
+    at0 = [val for conds, val in loc_regimes if all(P.condition_holds(c_, 1e-12, "x") for c_ in conds)]
+    if len(at0) != 1:
+        raise A.Undecided("local part: no unique piece at x = 0")
+    if at0[0] is not None:
+        m += A.evalf(A.subs(A.to_rat(at0[0]), {"x": A.Rat.const(0)}), {"nf": nf})
+    return m
+
+
 # (module, class, order) -> (target function of nf, absolute tolerance, name)
 def moment_targets():
     out = []
@@ -149,16 +238,21 @@ def check_moments(rep, proj, tier):
             if r.status != "rsl":
                 rep.bad("C04.mom", c.site, construct, f"coefficient function of order {k} is missing ({r.status}): the {what} cannot hold", key=what)
                 continue
-            reg = P.eval_part(ev, r.rsl, "reg", sym.z)
-            loc = P.eval_part(ev, r.rsl, "loc", sym.z)
+            reg_regimes = P.eval_part_regimes(ev, r.rsl, "reg", sym.z)
+            loc_regimes = P.eval_part_regimes(ev, r.rsl, "loc", sym.z)
         except (A.Undecided, S.Raised) as e:
             rep.undecided("C04.mom", c.site, construct, f"not foldable: {e}")
             continue
+        piecewise = len(reg_regimes) > 1 or len(loc_regimes) > 1 or reg_regimes[0][0] or loc_regimes[0][0]
+        reg, loc = reg_regimes[0][1], loc_regimes[0][1]
         site = r.method.site if r.method is not None else c.site
         worst = None
         try:
             for nf in (3, 4, 5, 6):
-                m = first_moment(A.to_rat(reg) if reg is not None else None, loc, nf)
+                if piecewise:
+                    m = first_moment_piecewise(reg_regimes, loc_regimes, nf)
+                else:
+                    m = first_moment(A.to_rat(reg) if reg is not None else None, loc, nf)
                 d = abs(m - target(nf))
                 if worst is None or d > worst[0]:
                     worst = (d, nf, m, target(nf))
